@@ -346,8 +346,13 @@ func runC02(s *Sim) {
 			if typ != "value" {
 				txt = fmt.Sprintf("t%d", nOps)
 			}
-			add(a, fmt.Sprintf("points %s (%s,%q)=%v", n, typ, key, v), func() {
-				_ = client.SendNodePoints(a.Nc, n, data.Points{{Type: typ, Key: key, Value: v, Text: txt, Time: stamp(), Origin: a.Name}}, true)
+			two := wl.Chance(1, 3)
+			add(a, fmt.Sprintf("points %s (%s,%q)=%v two=%v", n, typ, key, v, two), func() {
+				pts := data.Points{{Type: typ, Key: key, Value: v, Text: txt, Time: stamp(), Origin: a.Name}}
+				if two {
+					pts = append(pts, data.Point{Type: "extra", Key: key, Value: v + 0.5, Time: stamp(), Origin: a.Name})
+				}
+				_ = client.SendNodePoints(a.Nc, n, pts, true)
 			})
 		case 1: // create a child node (on either side)
 			if a == actU && !allowUpCreate {
